@@ -630,6 +630,8 @@ def _model_backed(ctx, rid, structural):
         structural(sub)
     except AnalysisError as e_:
         err = e_
+    except Exception as e_:           # a restructured method the structural reading trips over: the model decides, the error only counts when it cannot
+        err = AnalysisError(f'structural reading failed ({type(e_).__name__}: {e_})')
     for k_, v_ in sub.counters.items():
         if isinstance(v_, set):
             ctx.counters[k_] = ctx.counters.get(k_, set()) | v_
